@@ -2,6 +2,8 @@ package zzverif
 
 import (
 	"fmt"
+	"sort"
+	"strings"
 	"sync"
 
 	"github.com/ory/keto/internal/x/vhook"
@@ -20,6 +22,7 @@ type hookRecorder struct {
 	done    []bool
 	// H1: visited set pointer -> elements seen
 	visited map[string]map[string]int
+	keep    []any // keeps the sets alive so that their addresses are not reused while recording
 }
 
 var rec = &hookRecorder{cur: map[string]int{}, visited: map[string]map[string]int{}}
@@ -28,7 +31,7 @@ func init() { vhook.Sink = rec.sink }
 
 func (r *hookRecorder) start() {
 	r.mu.Lock()
-	r.enabled, r.cur, r.logs, r.done, r.visited = true, map[string]int{}, nil, nil, map[string]map[string]int{}
+	r.enabled, r.cur, r.logs, r.done, r.visited, r.keep = true, map[string]int{}, nil, nil, map[string]map[string]int{}, nil
 	r.mu.Unlock()
 }
 
@@ -51,6 +54,7 @@ func (r *hookRecorder) sink(ev string, f ...any) {
 		if m == nil {
 			m = map[string]int{}
 			r.visited[key] = m
+			r.keep = append(r.keep, f[0])
 		}
 		m[f[1].(string)]++
 		return
@@ -99,4 +103,21 @@ func (r *hookRecorder) completeLogs() (logs [][]cgEvent, open int) {
 		}
 	}
 	return
+}
+
+// visitedSets returns, for every visited set seen while recording, its sorted elements joined.
+func (r *hookRecorder) visitedSets() []string {
+	r.mu.Lock()
+	defer r.mu.Unlock()
+	var out []string
+	for _, m := range r.visited {
+		var els []string
+		for e, n := range m {
+			els = append(els, fmt.Sprintf("%s x%d", e, n))
+		}
+		sort.Strings(els)
+		out = append(out, strings.Join(els, ","))
+	}
+	sort.Strings(out)
+	return out
 }
